@@ -239,7 +239,7 @@ type c05xCase struct {
 	Time     vh.TimeVal `json:"time"`
 	Str      []byte     `json:"str"`
 	TagIndex int        `json:"tag_index"`
-	InSlice  int        `json:"in_slice"` // BQ: also as slice element / struct field via a registering instance
+	InSlice  int        `json:"in_slice"`       // BQ: also as slice element / struct field via a registering instance
 	Tree     *jany      `json:"tree,omitempty"` // JSON-any codecs
 }
 
